@@ -115,6 +115,53 @@ def gen_cell(rng, fmt):
             return [L(), L(), L(), al, be, ga]
 
 
+CART_FORMATS = ("xyz", "rawxyz", "pdb", "xcfg")      # the text carries Cartesian coordinates or the base vectors
+
+
+def gen_rotation(rng):
+    """A proper rotation matrix: an exact axis permutation / quarter turn, or a random one."""
+    if rng.random() < 0.35:
+        return rng.choice([
+            [[0.0, 1.0, 0.0], [-1.0, 0.0, 0.0], [0.0, 0.0, 1.0]],      # quarter turn about z
+            [[0.0, 0.0, 1.0], [1.0, 0.0, 0.0], [0.0, 1.0, 0.0]],       # cyclic permutation
+            [[-1.0, 0.0, 0.0], [0.0, -1.0, 0.0], [0.0, 0.0, 1.0]],     # half turn about z
+            [[1.0, 0.0, 0.0], [0.0, 0.0, -1.0], [0.0, 1.0, 0.0]],      # quarter turn about x
+        ])
+    q = [rng.gauss(0, 1) for _ in range(4)]
+    n = math.sqrt(sum(v * v for v in q))
+    w, x, y, z = (v / n for v in q)
+    return [[1 - 2 * (y * y + z * z), 2 * (x * y - z * w), 2 * (x * z + y * w)],
+            [2 * (x * y + z * w), 1 - 2 * (x * x + z * z), 2 * (y * z - x * w)],
+            [2 * (x * z - y * w), 2 * (y * z + x * w), 1 - 2 * (x * x + y * y)]]
+
+
+def gen_lat(rng, cell):
+    """How the lattice is oriented: None (standard orientation) or a rotated one, given either by
+    its base vectors (`Lattice(base=...)`) or by `baserot=`."""
+    R = gen_rotation(rng)
+    if rng.random() < 0.5:
+        return {"mode": "baserot", "m": [hx(v) for row in R for v in row]}
+    from diffpy.structure import Lattice
+    import numpy
+
+    base = numpy.dot(Lattice(*cell).base, numpy.array(R))
+    return {"mode": "base", "m": [hx(v) for v in numpy.ravel(base)]}
+
+
+def make_lattice(spec):
+    from diffpy.structure import Lattice
+    import numpy
+
+    cell = [fx(v) for v in spec["cell"]]
+    lat = spec.get("lat")
+    if not lat:
+        return Lattice(*cell)
+    m = numpy.array([fx(v) for v in lat["m"]]).reshape(3, 3)
+    if lat["mode"] == "base":
+        return Lattice(base=m)
+    return Lattice(*cell, baserot=m)
+
+
 def gen_adp(rng, cell):
     k = rng.choice(["zero", "zero", "iso", "iso", "aniso", "aniso", "flagiso", "isoboundary", "anisodiag"])
     if k == "zero":
@@ -153,9 +200,12 @@ def gen_coord(rng, fmt, cellscale):
 def gen_spec(rng, fmt, natoms=None):
     """A structure specification inside `Repr_fmt` (the representable range of the format)."""
     cell = gen_cell(rng, fmt)
+    if fmt in CART_FORMATS and rng.random() < 0.2:
+        cell = [1.0, 1.0, 1.0, 90.0, 90.0, 90.0]          # a cluster: unit parameters, often rotated below
     if fmt == "pdb":
         # CRYST1 columns: a < 9999.9995 (8 columns read), b, c < 99999.9995
         cell[0] = min(cell[0], 9000.0)
+    lat = gen_lat(rng, cell) if (fmt in CART_FORMATS and rng.random() < 0.4) else None
     scale = max(cell[:3])
     if natoms is None:
         natoms = rng.choice([0, 1, 1, 2, 3, 4, 6, 9])
@@ -180,7 +230,7 @@ def gen_spec(rng, fmt, natoms=None):
                     return rng.uniform(lo, hi)
                 return rng.choice([lo + 0.0006, hi - 0.0006, _boundary(rng, 3, 2)])
             rc = [cart(-999.999, 9999.999), cart(-99.999, 999.999), cart(-99.999, 999.999)]
-            xyz = [float(v) for v in Lattice(*cell).fractional(rc)]
+            xyz = [float(v) for v in make_lattice({"cell": [hx(v) for v in cell], "lat": lat}).fractional(rc)]
         occ = rng.choice([1.0, 1.0, 1.0, 0.5, rng.random(), 0.0, _boundary(rng, rng.choice([2, 4]), 0) % 1.0])
         a = {"el": "" if raw_noel else rng.choice(els), "xyz": [hx(v) for v in xyz], "occ": hx(occ),
              "adp": gen_adp(rng, cell)}
@@ -189,6 +239,8 @@ def gen_spec(rng, fmt, natoms=None):
         atoms.append(a)
     title = rng.choice(TITLES)
     spec = {"cls": "Structure", "title": title, "cell": [hx(v) for v in cell], "atoms": atoms}
+    if lat:
+        spec["lat"] = lat
     if fmt == "xcfg":
         if rng.random() < 0.3:
             for a in atoms:
@@ -231,7 +283,7 @@ def build(spec):
     from diffpy.structure import Lattice, PDFFitStructure, Structure
 
     cls = PDFFitStructure if spec.get("cls") == "PDFFitStructure" else Structure
-    s = cls(lattice=Lattice(*[fx(v) for v in spec["cell"]]), title=spec["title"])
+    s = cls(lattice=make_lattice(spec), title=spec["title"])
     for k, v in (spec.get("pdffit") or {}).items():
         s.pdffit[k] = v if k == "spcgr" else ([fx(x) for x in v] if isinstance(v, list) else fx(v))
     for a in spec["atoms"]:
@@ -482,6 +534,28 @@ class TripFailure(Exception):
         self.what = what
 
 
+def xcfg_cartesian(s, s1, t1):
+    """Cartesian positions (`xyz_cartn`, i.e. fractional x base vectors) relative to the first atom
+    are what an XCFG file fixes; they must survive, base vectors included."""
+    import numpy
+
+    if len(s) != len(s1) or len(s) == 0:
+        return None
+    m = re.search(r"^A = (\S+) Angstrom", t1, flags=re.M)
+    A = float(m.group(1))
+    c0 = numpy.array([a.xyz_cartn for a in s], dtype=float)
+    c1 = numpy.array([a.xyz_cartn for a in s1], dtype=float)
+    d0 = c0 - c0[0]
+    d1 = c1 - c1[0]
+    scale = max(float(numpy.abs(s.lattice.base).max()), 1e-30)
+    tol = 3 * scale * (A * 1.0e-8 * 1.001 + 1e-7 * float(numpy.abs([a.xyz for a in s]).max() + 1.0))
+    dev = float(numpy.abs(d1 - d0).max())
+    if dev > tol:
+        i = int(numpy.abs(d1 - d0).max(axis=1).argmax())
+        return "Cartesian position of atom %d relative to atom 0 was %r, read back %r" % (i, d0[i].tolist(), d1[i].tolist())
+    return None
+
+
 def xcfg_positions(fmt, s, s1, t1):
     """XCFG records positions relative to the box: a common shift of all atoms is allowed when the
     writer had to recentre (coordinates outside [0, A)); otherwise the shift must vanish."""
@@ -662,7 +736,7 @@ def oracle(fmt, s, fresh=None):
     if bad:
         return bad, info
     if fmt == "xcfg":
-        msg = xcfg_positions(fmt, s, s1, t1)
+        msg = xcfg_positions(fmt, s, s1, t1) or xcfg_cartesian(s, s1, t1)
         if msg:
             return ("xcfg:xyz", "xcfg: first round trip: " + msg), info
     # (b) from the second trip on nothing changes: text fixed point, structure fixed point
@@ -679,7 +753,7 @@ def oracle(fmt, s, fresh=None):
                     "read as anisotropic switched to isotropic on the second write"), info
         return (bad[0] + ":second-trip", bad[1]), info
     if fmt == "xcfg":
-        msg = xcfg_positions(fmt, s1, s2, t2)
+        msg = xcfg_positions(fmt, s1, s2, t2) or xcfg_cartesian(s1, s2, t2)
         if msg:
             return ("xcfg:xyz:second-trip", "xcfg: second round trip: " + msg), info
     info["t2_equals_t1"] = canon_text(fmt, t1) == canon_text(fmt, t2)
@@ -1238,6 +1312,15 @@ def shrink(fmt, spec, fails, budget=60):
             del c["atoms"][i]
             if attempt(c):
                 changed = True
+    if cur.get("lat"):
+        c = copy.deepcopy(cur)
+        c.pop("lat")
+        if not attempt(c):
+            # keep a rotation, but the simplest one: a quarter turn about z of the unit cell
+            c = copy.deepcopy(cur)
+            c["cell"] = [hx(v) for v in (1, 1, 1, 90, 90, 90)]
+            c["lat"] = {"mode": cur["lat"]["mode"], "m": [hx(v) for v in (0, 1, 0, -1, 0, 0, 0, 0, 1)]}
+            attempt(c)
     simple = [("title", ""), ("cls", "Structure"), ("pdffit", None)]
     for k, v in simple:
         if cur.get(k) not in (v, None):
@@ -1320,6 +1403,10 @@ def describe(spec):
             u = "U=%s" % [float("%.6g" % fx(v)) for v in adp[1]]
         ats.append("%s xyz=%s occ=%.6g %s%s" % (a["el"], [float("%.9g" % fx(v)) for v in a["xyz"]], fx(a["occ"]), u,
                                                (" label=%r" % a["label"]) if a.get("label") else ""))
+    if spec.get("lat"):
+        m = [float("%.6g" % fx(v)) for v in spec["lat"]["m"]]
+        cell = ("Lattice(base=%s)" % [m[0:3], m[3:6], m[6:9]]) if spec["lat"]["mode"] == "base" else (
+            "Lattice(%s, baserot=%s)" % (", ".join(str(v) for v in cell), [m[0:3], m[3:6], m[6:9]]))
     return "%s(title=%r, cell=%s, atoms=[%s]%s)" % (spec.get("cls", "Structure"), spec["title"], cell, "; ".join(ats),
                                                     (", pdffit=%r" % {k: (v if k == "spcgr" else "…") for k, v in spec["pdffit"].items()}) if spec.get("pdffit") else "")
 
@@ -1535,6 +1622,12 @@ def corpus():
         out.append((fmt, dict(one, cell=base["cell"], atoms=[dict(one["atoms"][0], xyz=[hx(0.0)] * 3, adp=["zero"])])))
         out.append((fmt, dict(one, cls="PDFFitStructure", pdffit={"scale": hx(1.5)}, title="two atoms",
                               atoms=[one["atoms"][0], dict(one["atoms"][0], el="O", xyz=[hx(0.5), hx(0.0), hx(0.75)], occ=hx(0.5))])))
+        if fmt in CART_FORMATS:
+            two = [dict(one["atoms"][0], xyz=[hx(1.5), hx(0.25), hx(-0.5)], adp=["zero"]),
+                   dict(one["atoms"][0], el="O", xyz=[hx(0.0), hx(2.0), hx(0.75)], adp=["zero"])]
+            quarter = [hx(v) for v in (0, 1, 0, -1, 0, 0, 0, 0, 1)]
+            for mode in ("base", "baserot"):
+                out.append((fmt, dict(base, title="rotated cluster", atoms=two, lat={"mode": mode, "m": quarter})))
         if fmt == "pdb":
             out.append((fmt, dict(one, cell=base["cell"], atoms=[dict(one["atoms"][0], xyz=[hx(0.0)] * 3,
                                   adp=["aniso", [hx(0.000128597), hx(5.52154e-05), hx(0.000136583), hx(0.0), hx(0.0), hx(0.0)]])])))
@@ -1686,7 +1779,7 @@ def run(ck):
     ck.coverage["traces_validated_against_impl"] += nmodel
     ck.coverage["rule"] = ("corpus of boundary structures, then per format %d seeded random structures inside the format's "
                            "representable range (cells: unit/cubic/orthorhombic/hexagonal/monoclinic/rhombohedral/triclinic/very large/"
-                           "very small; 0..9 atoms; zero/isotropic/anisotropic/flag-only ADPs mixed; occupancies 1, partial, 0 and "
+                           "very small; for xyz, rawxyz, pdb, xcfg also rotated lattices, unit-parameter clusters included, given by base= or by baserot=; 0..9 atoms; zero/isotropic/anisotropic/flag-only ADPs mixed; occupancies 1, partial, 0 and "
                            "rounding-boundary values; ions; titles incl. blank, padded, long, unicode; coordinates inside/outside the cell, "
                            "tiny, large, and k+1/2 units of the last printed place +-2 ulp).  Each case = 3 write/read trips on the real code; "
                            "distinct_nontrivial counts distinct (format, structure) pairs with at least one atom; "
